@@ -14327,7 +14327,8 @@ func (e *MulticastFlagsExtended) Serialize() ([]byte, error) {
 
 	if e.IsIGMPProxy {
 		buf[3] |= uint8(IGMP_PROXY)
-	} else if e.IsMLDProxy {
+	}
+	if e.IsMLDProxy {
 		buf[3] |= uint8(MLD_PROXY)
 	}
 	return buf, nil
@@ -14430,12 +14431,12 @@ func parseEvpnExtended(data []byte) (ExtendedCommunityInterface, error) {
 			Label:  label,
 		}, nil
 	case EC_SUBTYPE_MULTICAST_FLAGS:
-		if flags := data[3]; flags != 0 {
-			return &MulticastFlagsExtended{
-				IsIGMPProxy: flags&uint8(IGMP_PROXY) > 0,
-				IsMLDProxy:  flags&uint8(MLD_PROXY) > 0,
-			}, nil
-		}
+		// a flags field: no flag set is as valid as any other combination
+		flags := data[3]
+		return &MulticastFlagsExtended{
+			IsIGMPProxy: flags&uint8(IGMP_PROXY) > 0,
+			IsMLDProxy:  flags&uint8(MLD_PROXY) > 0,
+		}, nil
 	}
 	return nil, NewMessageError(BGP_ERROR_UPDATE_MESSAGE_ERROR, BGP_ERROR_SUB_MALFORMED_ATTRIBUTE_LIST, nil, fmt.Sprintf("unknown evpn subtype: %d", subType))
 }
